@@ -493,11 +493,13 @@ def run(ctx):
     else:
         res = vcheck.coq_build(["Properties/Properties_C20.v"])
     ctx.coq_evidence(res)
+    ctx.log("coq obligations built")
     model = build_model(ctx)
     t0 = time.time()
     exes = build_harness(ctx)
     build_s = time.time() - t0
     variants = list_variants(exes)
+    ctx.log("harness built: %d translation units, %d variants, %.1fs" % (len(exes), len(variants), build_s))
     runner = Runner(ctx, model)
 
     # ---- replay of one case
@@ -565,8 +567,10 @@ def run(ctx):
         mm, _ = runner.check(v, seqs, tag, hp, dhp, expected)
         return v, seqs, hp, dhp, mm, time.time() - t
 
+    ctx.log("sequences generated and model run for %d profiles" % len(profiles))
     with ThreadPoolExecutor(max_workers=max(2, vcheck.NCPU)) as ex:
         results = list(ex.map(do, jobs))
+    ctx.log("variants run: %d" % len(jobs))
 
     for v, seqs, hp, dhp, mm, dt in results:
         nops = sum(len(s[1]) for s in seqs)
@@ -594,7 +598,16 @@ def run(ctx):
                 mismatches.append((v, seqs, "", "", mm))
 
     # ---- report
-    for v, seqs, hp, dhp, mm in mismatches[:6]:
+    # one replay per container family first (different families usually mean different defects), at most 10
+    def family(v):
+        m = re.search(r"family=([^;]+)", v["traits"]); f = re.search(r"form=([^;]+)", v["traits"])
+        return (m.group(1) if m else v["name"]) + "/" + (f.group(1) if f else "")
+    seen, chosen = set(), []
+    for m in mismatches:
+        if family(m[0]) not in seen:
+            seen.add(family(m[0])); chosen.append(m)
+    ctx.max_per_what = 1
+    for v, seqs, hp, dhp, mm in chosen[:10]:
         sid, idx, el, ol = mm
         ops = next((s[1] for s in seqs if s[0] == sid), [])
         mops, mm2 = runner.minimise(v, ops, hp, dhp)
